@@ -585,7 +585,7 @@ pub fn gen_spec(prop: &str, run_seed: u64, p: &Profile) -> Spec {
                 _ => Op::SnapshotIter,
             }),
             11 => Some(Op::Restart(gen_cfg(g.rng, p))),
-            12 => Some(Op::RaceRestart(gen_cfg(g.rng, p))),
+            12 => Some(if g.rng.chance(30) { Op::PanicRestart(gen_cfg(g.rng, p)) } else { Op::RaceRestart(gen_cfg(g.rng, p)) }),
             13 => g.gen_rejected(),
             14 => Some(g.gen_hostile()),
             15 => Some(Op::Readers { n: g.rng.range(1, 3) as u8, rounds: g.rng.range(1, 3) as u8 }),
